@@ -190,7 +190,7 @@ package dispatcher
 // denomination); zero when nothing is stored.
 //@ func (d *Dispatcher) GetDispatchedAmount(ctx, sourceID, destID, denom) (e)
 //@   requires[inv]  d != nil
-//@   requires[base] sourceID != nil && destID != nil && destID.ProtocolId >= 0
+//@   requires[C13] sourceID != nil && destID != nil && destID.ProtocolId >= 0
 //@   letold k = quad4(sourceID.ProtocolId, sourceID.CounterpartyId, idstr(destID.ProtocolId, destID.CounterpartyId), denom)
 //@   ensures[C13] e != nil && e.SourceId == sourceID && e.DestinationId == destID && e.Denom == denom
 //@   ensures[C13] amt_has[d.dispatchedAmounts][k] ==> e.AmountDispatched == amt_val[d.dispatchedAmounts][k]
@@ -198,7 +198,7 @@ package dispatcher
 
 //@ func (d *Dispatcher) GetDispatchedCounts(ctx, sourceID, destID) (e)
 //@   requires[inv]  d != nil
-//@   requires[base] sourceID != nil && destID != nil
+//@   requires[C13] sourceID != nil && destID != nil
 //@   letold k = quad4(sourceID.ProtocolId, sourceID.CounterpartyId, destID.ProtocolId, destID.CounterpartyId)
 //@   ensures[C13] e != nil && e.SourceId == sourceID && e.DestinationId == destID
 //@   ensures[C13] e.Count == cntOf(d, k)
